@@ -14,7 +14,22 @@ def main(rest, a):
         print(open(path).read()[:4000])
         print("race-detector report: re-run the property's check to reproduce")
         return 1
-    first = json.loads(open(path).readline())
+    head = open(path).readline()
+    if head.startswith("command: "):        # a library panic that ended a recorder run: re-run that recorder command
+        ctx = Ctx("replay", a.tier, a.seed)
+        args = head[len("command: "):].split()
+        prof = args[args.index("--profile") + 1]
+        seed = int(args[args.index("--seed") + 1])
+        ctx.tier, ctx.seed = args[args.index("--tier") + 1], seed
+        try:
+            ctx.record(prof)
+        except LibraryPanic as e:
+            print("PANIC reproduced:", e)
+            print(e.text[-1500:])
+            return 1
+        print("no panic: recorder profile %s (seed %d) runs to completion on the current tree" % (prof, seed))
+        return 0
+    first = json.loads(head)
     ctx = Ctx("replay", a.tier, a.seed)
     if first.get("op") == "NewPool":
         import pool_family
